@@ -206,13 +206,17 @@ Proof. intros Ha Hb. unfold bdd_implies. apply good_or; [now apply good_not | as
 Lemma terminal_good t e t' g : terminal t e = (t', g) -> good g.
 Proof. intros H. apply terminal_spec in H. destruct H as [_ (i & _ & ->)]. apply good_var. Qed.
 
-Lemma e2g_good debug e : forall t t' g, e2g debug t e = Ok (t', g) -> good g.
+Lemma e2g_good rp debug e : forall t t' g, e2g rp debug t e = Ok (t', g) -> good g.
 Proof.
   induction e; intros t t' g H; cbn [e2g] in H;
-    match type of H with (if negb ?c then _ else _) = _ => destruct c; cbn [negb] in H; [| discriminate] end;
+    try (match type of H with (if ?c then _ else _) = _ => destruct c end);
+    try (match type of H with
+         | cut_other _ _ _ = Ok _ => apply cut_other_ok in H; now apply terminal_good in H
+         | cut_connective _ _ _ = Ok _ => apply cut_connective_ok in H; now apply terminal_good in H
+         end);
     inv_ok;
     repeat match goal with
-           | IH : forall t t' g, e2g ?d t ?x = Ok (t', g) -> _, E : e2g ?d _ ?x = Ok ?p |- _ =>
+           | IH : forall t t' g, e2g ?r ?d t ?x = Ok (t', g) -> _, E : e2g ?r ?d _ ?x = Ok ?p |- _ =>
                rewrite (surj_pair_eq p) in E; apply IH in E; clear IH
            end;
     try (match goal with Ht : terminal _ _ = (_, _) |- _ => now apply terminal_good in Ht end);
@@ -220,15 +224,15 @@ Proof.
     auto using good_leaf, good_not, good_and, good_or, good_xor, good_implies.
 Qed.
 
-Lemma expr_to_guard_good debug t e t' g : expr_to_guard debug t e = Ok (t', g) -> good g.
+Lemma expr_to_guard_good rp debug t e t' g : expr_to_guard rp debug t e = Ok (t', g) -> good g.
 Proof.
   unfold expr_to_guard. destruct (debug && negb (expr_is_bool e)); [discriminate |]. apply e2g_good.
 Qed.
 
 Definition gsum (s : summary) : Prop := forall e, In e s -> good (fst e).
 
-Lemma to_guard_good debug s : forall t acc t' g,
-  gsum s -> good acc -> to_guard debug t s acc = Ok (t', g) -> good g.
+Lemma to_guard_good rp debug s : forall t acc t' g,
+  gsum s -> good acc -> to_guard rp debug t s acc = Ok (t', g) -> good g.
 Proof.
   induction s as [| [g0 x] s IH]; intros t acc t' g Hs Ha H; cbn [to_guard] in H.
   - inversion H; now subst.
@@ -242,8 +246,8 @@ Qed.
 Lemma gsum_new x : gsum (vs_new x).
 Proof. intros e [<- | []]. apply good_leaf. Qed.
 
-Lemma gsum_bin debug rank op a b r :
-  apply_bin_op debug rank op a b = Ok r -> gsum a -> gsum b -> gsum r.
+Lemma gsum_bin rp debug rank op a b r :
+  apply_bin_op rp debug rank op a b = Ok r -> gsum a -> gsum b -> gsum r.
 Proof.
   intros H Ha Hb. apply apply_bin_op_shape in H. destruct H as (out1 & Hm & ->).
   apply merge_common_spec in Hm. destruct Hm as [_ Hout].
@@ -277,8 +281,8 @@ Proof.
   intros e He. rewrite delete_entries_go in He. apply delete_go_In in He. now apply Hc.
 Qed.
 
-Lemma gsum_ite debug t c tr fl t' r :
-  apply_ite debug t c tr fl = Ok (t', r) -> gsum c -> gsum tr -> gsum fl -> gsum r.
+Lemma gsum_ite rp debug t c tr fl t' r :
+  apply_ite rp debug t c tr fl = Ok (t', r) -> gsum c -> gsum tr -> gsum fl -> gsum r.
 Proof.
   intros H Hc Ht Hf. apply apply_ite_cases in H.
   destruct H as [(_ & _ & ->) | [(_ & _ & ->) | (tc & Hg & [(_ & ->) | [(_ & ->) | ->]])]]; try assumption.
@@ -287,8 +291,8 @@ Proof.
     apply in_map_iff in He; destruct He as (e0 & <- & He0); cbn [fst]; apply good_and; auto using good_not.
 Qed.
 
-Lemma gsum_import debug t s t' r :
-  import_into_guard debug t s = Ok (t', r) -> gsum s -> gsum r.
+Lemma gsum_import rp debug t s t' r :
+  import_into_guard rp debug t s = Ok (t', r) -> gsum s -> gsum r.
 Proof.
   intros H Hs. apply import_cases in H. destruct H as (g & Hg & H).
   apply to_guard_good in Hg; [| assumption | apply good_leaf].
@@ -301,7 +305,7 @@ Qed.
 Definition gstate (st : vstate) : Prop :=
   all_sums gsum st /\ forall g, In g (vs_guards st) -> good g.
 
-Lemma vstep_good debug fixed st o st' : gstate st -> vstep debug fixed st o = Ok st' -> gstate st'.
+Lemma vstep_good rp debug fixed st o st' : gstate st -> vstep rp debug fixed st o = Ok st' -> gstate st'.
 Proof.
   intros [Ha Hg] H. destruct o; cbn [vstep] in H; inv_step H.
   - split; [| assumption]. apply all_sums_push; [assumption | apply gsum_new].
@@ -313,7 +317,7 @@ Proof.
     destruct a. eapply expr_to_guard_good; eassumption.
 Qed.
 
-Lemma vrun_good debug fixed prog : forall st st', gstate st -> vrun debug fixed st prog = Ok st' -> gstate st'.
+Lemma vrun_good rp debug fixed prog : forall st st', gstate st -> vrun rp debug fixed st prog = Ok st' -> gstate st'.
 Proof.
   induction prog as [| o prog IH]; intros st st' Hg H; cbn [vrun] in H.
   - inversion H; now subst.
@@ -322,8 +326,8 @@ Qed.
 
 (** In every reachable state, two guards (of entries or returned by [expr_to_guard]) that
     agree under every valuation are the same guard. *)
-Lemma guards_canonical_lemma debug fixed prog st :
-  vrun debug fixed vinit prog = Ok st ->
+Lemma guards_canonical_lemma rp debug fixed prog st :
+  vrun rp debug fixed vinit prog = Ok st ->
   forall g1 g2,
     (In g1 (vs_guards st) \/ exists s e, In s (vs_sums st) /\ In e s /\ fst e = g1) ->
     (In g2 (vs_guards st) \/ exists s e, In s (vs_sums st) /\ In e s /\ fst e = g2) ->
